@@ -128,6 +128,47 @@ package shard
 //@   property C14
 //@   ensures [metabase_error_fails_the_read_only_when_the_mode_has_a_metabase] res1 != nil && resultOf(res1, "(*metabase.DB).Exists") ==> metabaseUsable()
 
+// The order of the component switches keeps the layers consistent when a switch fails half
+// way (the reported mode then stays the old one): a request flows write-cache -> blobstor ->
+// metabase, so when leaving read-write the write-cache is switched first and the metabase
+// last; when entering read-write it is the opposite. The components are method values in a
+// slice; boundTo() identifies the method a slice element was made from.
+//@ ghost pred metabaseSwitched() bool
+//@ ghost pred storageSwitched() bool
+//@ ghost pred cacheSwitched() bool
+// (the slice of components is a local of setMode: neither the logger, nor hasWriteCache,
+// nor the component switches themselves can reach it)
+//@ callrule c14_setmode_collaborators in (*Shard).setMode
+//@   property C14
+//@   callee (*zap.Logger).*, zap.*, (shard.MetricsWriter).*
+//@   pureeffect
+//@ func (*Shard).hasWriteCache
+//@   property C14
+//@   assigns nothing
+//@   ensures [answers_the_configuration] result == s.useWriteCache
+//@ callrule c14_component_switch_order in (*Shard).setMode
+//@   property C14
+//@   callee dynamic:*
+//@   pureeffect
+//@   requires [only_the_three_layers_are_switched] boundTo(fnval, "(*metabase.DB).SetMode$bound") || boundTo(fnval, "(*shard.Shard).setModeStorage$bound") || boundTo(fnval, "(writecache.Cache).SetMode$bound")
+//@   requires [entering_read_write_metabase_before_blobstor] m == mode.ReadWrite && boundTo(fnval, "(*shard.Shard).setModeStorage$bound") ==> metabaseSwitched()
+//@   requires [entering_read_write_blobstor_before_write_cache] m == mode.ReadWrite && boundTo(fnval, "(writecache.Cache).SetMode$bound") ==> storageSwitched()
+//@   requires [leaving_read_write_write_cache_before_blobstor] m != mode.ReadWrite && len(components) == 3 && boundTo(fnval, "(*shard.Shard).setModeStorage$bound") ==> cacheSwitched()
+//@   requires [leaving_read_write_blobstor_before_metabase] m != mode.ReadWrite && boundTo(fnval, "(*metabase.DB).SetMode$bound") ==> storageSwitched()
+//@   defines res0 == nil && boundTo(fnval, "(*metabase.DB).SetMode$bound") ==> metabaseSwitched()
+//@   defines res0 == nil && boundTo(fnval, "(*shard.Shard).setModeStorage$bound") ==> storageSwitched()
+//@   defines res0 == nil && boundTo(fnval, "(writecache.Cache).SetMode$bound") ==> cacheSwitched()
+
+//@ func (*Shard).setMode
+//@   property C14
+//@   loop 1 invariant -1 <= rangeindex && rangeindex < len(components) && (len(components) == 2 || len(components) == 3)
+//@   loop 1 invariant [order_for_entering_read_write] m == mode.ReadWrite ==> boundTo(components[0], "(*metabase.DB).SetMode$bound") && boundTo(components[1], "(*shard.Shard).setModeStorage$bound") && (len(components) == 3 ==> boundTo(components[2], "(writecache.Cache).SetMode$bound"))
+//@   loop 1 invariant [order_for_leaving_read_write_with_write_cache] m != mode.ReadWrite && len(components) == 3 ==> boundTo(components[0], "(writecache.Cache).SetMode$bound") && boundTo(components[1], "(*shard.Shard).setModeStorage$bound") && boundTo(components[2], "(*metabase.DB).SetMode$bound")
+//@   loop 1 invariant [order_for_leaving_read_write_without_write_cache] m != mode.ReadWrite && len(components) == 2 ==> boundTo(components[0], "(*shard.Shard).setModeStorage$bound") && boundTo(components[1], "(*metabase.DB).SetMode$bound")
+//@   loop 1 invariant m == mode.ReadWrite ==> (rangeindex >= 0 ==> metabaseSwitched()) && (rangeindex >= 1 ==> storageSwitched())
+//@   loop 1 invariant m != mode.ReadWrite && len(components) == 3 ==> (rangeindex >= 0 ==> cacheSwitched()) && (rangeindex >= 1 ==> storageSwitched())
+//@   loop 1 invariant m != mode.ReadWrite && len(components) == 2 ==> (rangeindex >= 0 ==> storageSwitched())
+
 // ---- C43: the reported mode changes only when every component switched.
 //@ ghost pred allComponentsSwitched() bool
 //@ callrule c43_shard_collaborators in (*Shard).setMode, (*Shard).setModeStorage
